@@ -11,6 +11,7 @@ import (
 	"runtime"
 	"strconv"
 	"strings"
+	"sync/atomic"
 	"time"
 
 	"github.com/pgavlin/dawn/pickle"
@@ -170,6 +171,7 @@ type c15Viol struct {
 }
 
 type c15Runner struct {
+	progress int64
 	cur      *os.File
 	out      c15Out
 	distinct map[uint64]struct{}
@@ -188,6 +190,7 @@ func (r *c15Runner) try(id string, in []byte) {
 	r.cur.WriteAt(append(append(hdr[:], id...), in...), 0)
 
 	r.out.Decodes++
+	defer atomic.AddInt64(&r.progress, 1)
 	var v starlark.Value
 	var err error
 	var pan any
@@ -302,6 +305,21 @@ func childC15Dec(args []string) {
 	}
 	r := &c15Runner{cur: cur, distinct: map[uint64]struct{}{}}
 	r.out.ErrKinds = map[string]int64{}
+	// bounded-progress watchdog: a decode takes microseconds; if the counter of finished decodes
+	// does not move for 20 s the current input (already on disk) made the decoder hang
+	go func() {
+		last, since := int64(-1), time.Now()
+		for {
+			time.Sleep(time.Second)
+			if n := atomic.LoadInt64(&r.progress); n != last {
+				last, since = n, time.Now()
+			} else if time.Since(since) > 20*time.Second {
+				buf := make([]byte, 1<<18)
+				fmt.Fprintf(os.Stderr, "DECODE-WATCHDOG: no decode finished for 20 s\n%s\n", buf[:runtime.Stack(buf, true)])
+				os.Exit(97)
+			}
+		}
+	}()
 	idx := 0
 	mine := func(id string) bool {
 		idx++
@@ -495,6 +513,10 @@ func runC15(c *core.Ctx) {
 					id, in = string(cur[8:8+m]), cur[8+m:8+m+n]
 				}
 			}
+			if x.r.Exit == 97 {
+				c.Violation(id, "", "decoder-does-not-return", map[string]any{"input_b64": base64.StdEncoding.EncodeToString(in), "bound": "no decode finished for 20 s (a decode normally takes microseconds)", "stderr": lastLines(x.r.Stderr, 40)})
+				continue
+			}
 			if x.r.TimedOut && x.r.FatalKind() == "" {
 				c.Inconclusive(fmt.Sprintf("decoder shard %d hit the wall-clock watchdog at input %s", x.shard, id))
 				continue
@@ -525,6 +547,11 @@ func runC15(c *core.Ctx) {
 	c.Sample(map[string]any{"kind": "seed encoding (base64)", "value": b64[len(b64)-1][:min(120, len(b64[len(b64)-1]))]})
 	c.Sample(map[string]any{"kind": "mutation case ids", "value": []string{"sub/<seed>/<pos>/<byte>", "trunc/<seed>/<len>", "splice/<i>", "prog/<i>"}})
 
+	if c.Violations() > 0 {
+		// the decoder itself is already refuted; the record sweep would only repeat it slowly
+		c.Count("record_sweep_skipped_after_decoder_violations", 1)
+		return
+	}
 	c15Records(c)
 }
 
